@@ -216,6 +216,10 @@ def replay(plan, wdir, crate, h, r, log, fq=None):
                 return "not-reproduced", info
     blocks = [b for b in allb if b["kind"] != "cover"]
     if not blocks:
+        # Kani de-duplicates playback tests by their concrete values: the failing input may have been printed
+        # only as the witness of a cover with the same values -> try the cover witnesses
+        blocks = [b for b in allb if b["kind"] == "cover"]
+    if not blocks:
         return "no-playback", {"reason": "Kani produced no concrete playback test for a failed check", "tail": out[-1500:]}
     last = None
     for n, b in enumerate(blocks[:3]):
